@@ -48,6 +48,13 @@ class ContractErr(Exception):
         self.sid = None
 
 
+class FalsyContractErr(ContractErr):
+    """A contract error whose instances are falsy."""
+
+    def __bool__(self):
+        return False
+
+
 FAULT_CLASSES = {
     "FaultError": FaultError,
     "FaultBase": FaultBase,
@@ -710,6 +717,11 @@ class World:
             return {"error": cls}
         if form == "instance":
             e = ContractErr("[[%s]] instance" % sid)
+            e.sid = sid
+            return {"error": e}
+        if form == "falsy_instance":
+            # an exception object whose truth value is False (e.g. an exception type that is also an empty container)
+            e = FalsyContractErr("[[%s]] falsy instance" % sid)
             e.sid = sid
             return {"error": e}
         if form == "factory":
